@@ -842,4 +842,16 @@ theorem fill_tie (n32 : Rng → TM (U32 × Rng)) (h32 : ∀ st, n32 st = nextU32
 
 end TM
 end Jitter
+
+/-- `gen_entropy` returns the pool it leaves behind: the value IS `self.data` afterwards (so storing it back is a no-op) -/
+theorem Jitter.genEntropy_value_is_data (j : Jitter.Rng) :
+    Jitter.genEntropy j = (fun a => (a.2.data, a.2)) <$> Jitter.genEntropy j := by
+  unfold Jitter.genEntropy
+  simp only [map_bind, map_pure]
+
+theorem Jitter.nextU64_value_is_data (j : Jitter.Rng) :
+    Jitter.nextU64 j = (fun a => (a.2.data, a.2)) <$> Jitter.nextU64 j := by
+  unfold Jitter.nextU64
+  exact Jitter.genEntropy_value_is_data _
+
 end Rngs
